@@ -5,3 +5,4 @@ from . import geom  # noqa
 from . import c_cdiffraction  # noqa
 from . import c_blobs  # noqa
 from . import c_connectedpixels  # noqa
+from . import c_sparse  # noqa
